@@ -43,7 +43,7 @@ func skeletons(tier string, rng *rand.Rand) []string {
 	for _, b := range badPaths() {
 		add(b)
 	}
-	extra := []string{"$[?(1 < 2)]", "$[?($.a > 1)]", "$[?($.a < $.b)]", "$[?(@.max().max() == 1)]", "$[?(@.a =~ /a.c/)]", "$['a\\'b']", "$[\"a\\\"b\"]",
+	extra := []string{"$[?(1 < 2)]", "$[?($.a > 1)]", "$[?($.a < $.b)]", "$[?(@.max().max() == 1)]", "$[?(@.*.agg().agh() == 1)]", "$[?(@.agg().agh())]", "$[?($.agg().agg().agh() == 1)]", "$[?(@.a.f().agg().g() == 1)]", "$[?(@.a =~ /a.c/)]", "$['a\\'b']", "$[\"a\\\"b\"]",
 		"$.a\\.b", "$['\\u0041']", "$[?(@.a == 'x\\'y')]", "$[ 0 , 1 ]", "$[?( @.a == 1 )]", "$[1:2:3]", "$[::]", "$.*.*", "$..[?(@.a)]", "@.a", "a.b", "$[?(!@.a)]",
 		"$[?(@.a && (@.b || @.c))]", "$.a.f().g()", "$.*.agg().f()", "$[?(@.f() == 1)]", "$[?($.agg() == 1)]", "$[(1+1)]", "$[?(@.a == -1.5e+3)]"}
 	for _, e := range extra {
